@@ -1443,14 +1443,25 @@ class PGPKey(Armorable, ParentRef, PGPObject):
     @property
     def expires_at(self):
         """A :py:obj:`~datetime.datetime` object of when this key is to be considered expired, if any. Otherwise, ``None``"""
-        expires = None
-        for sig in iter(uid.selfsig for uid in self.userids if uid.selfsig):
-            if sig.key_expiration is not None:
-                expires = sig.key_expiration
+        if not self.is_primary:
+            sigs = []
 
-        # a key expiration time of zero means the key never expires (RFC 4880, 5.2.3.6)
-        if expires:
-            return self.created + expires
+        else:
+            # a primary key states it in the most recent self-signature of its primary user id (RFC 4880, 5.2.3.3).
+            # User ids are kept sorted: those flagged primary first, then by most recent self-signature; an identity
+            # whose self-signature the key has since revoked has no say, unless there is no other.
+            def retired(uid):
+                return any(sig.type == SignatureType.CertRevocation and sig.signer == self.fingerprint.keyid
+                           and not (sig.created < uid.selfsig.created) for sig in uid._signatures)
+
+            certified = [uid for uid in self.userids if uid.selfsig is not None]
+            live = [uid for uid in certified if not retired(uid)]
+            sigs = [uid.selfsig for uid in (live or certified)[:1]]
+
+        for sig in sigs:
+            # a key expiration time of zero means the key never expires (RFC 4880, 5.2.3.6)
+            if sig.key_expiration:
+                return self.created + sig.key_expiration
 
         return None
 
